@@ -37,7 +37,7 @@ def worker(k):
         prop = meta["breaks_property"]
         expect = bool(meta.get("caught_by_own_property_check"))
         try:
-            r = subprocess.run(["/verif/tools/devcheck.sh", "-s", f"reg{k}", "-p", f"{d}/patch.diff", prop, "--tier", "quick"],
+            r = subprocess.run(["/verif/tools/devcheck.sh", "-s", f"{os.environ.get('REG_PREFIX', 'reg')}{k}", "-p", f"{d}/patch.diff", prop, "--tier", "quick"],
                                capture_output=True, text=True, timeout=3600)
             out, rc = r.stdout, r.returncode
         except subprocess.TimeoutExpired:
